@@ -17,7 +17,7 @@ BUILTINS = {'len', 'range', 'enumerate', 'min', 'max', 'abs', 'int', 'float', 'b
             'empty_like', 'zeros_like', 'sum', 'tuple', 'list', 'isinstance', 'print', 'zip', 'floor', 'sqrt',
             'exp', 'tanh', 'cosh', 'cos', 'sin', 'RuntimeError', 'ValueError', 'AssertionError', 'NotImplementedError',
             'str', 'reversed', 'sorted', 'all', 'any', 'prod', 'pi', 'mod', 'fabs', 'log', 'dict', 'set'}
-SPEC_BUILTINS = {'forall', 'exists', 'sum_', 'implies', 'and_', 'iff', 'old', 'ite_', 'shape', 'let', 'select', 'real', 'fdiv', 'fmod', 'trunc'}
+SPEC_BUILTINS = {'uknots', 'forall', 'exists', 'sum_', 'implies', 'and_', 'iff', 'old', 'ite_', 'shape', 'let', 'select', 'real', 'fdiv', 'fmod', 'trunc'}
 
 import vf.execu as _execu
 _execu.BUILTINS = BUILTINS
@@ -161,6 +161,9 @@ class Engine(Exec):
         if name == 'select':
             a = args[0]
             return simp(self.elem_fn(st, a)(tuple(args[1:])))
+        if name == 'uknots':
+            xmin, dx = args
+            return ExprArr([None], lambda j: binop('Add', xmin, binop('Mult', binop('Sub', j[0], 3), dx)), REAL)
         if name == 'fdiv':
             return binop('FloorDiv', args[0], args[1])
         if name == 'fmod':
@@ -327,8 +330,15 @@ class Engine(Exec):
                 continue
             else:
                 zargs.append(Z(v))
-        ret = {'int': INT, 'float': REAL, 'bool': BOOL}[c.returns or 'float']
-        decl = self.pure_decl(c.key, [a.sort() for a in zargs], ret)
+        SM = {'int': INT, 'float': REAL, 'bool': BOOL}
+        rs = c.returns or 'float'
+        if rs.startswith('tuple:'):
+            out = []
+            for k, comp in enumerate(rs[6:].split(',')):
+                decl = self.pure_decl('%s#%d' % (c.key, k), [a.sort() for a in zargs], SM[comp])
+                out.append(decl(*zargs))
+            return tuple(out)
+        decl = self.pure_decl(c.key, [a.sort() for a in zargs], SM[rs])
         return decl(*zargs)
 
     def apply_contract(self, c, target, qual, params, args, kwargs, st, fr, node):
